@@ -114,6 +114,16 @@ static std::string hist_show(const Hist& h, const OpVal* last) {
   return s;
 }
 
+// crash attribution: the state id and menu index in flight per thread; the dying thread turns them into a
+// complete replayable history (parent pointers are read-only during expansion)
+static thread_local uint32_t g_inflight_state = UINT32_MAX;
+static thread_local int g_inflight_op = -1;
+static void crash_describe() {
+  if (g_inflight_state == UINT32_MAX || g_inflight_state >= PARENT.size()) return;
+  Hist h = history_of(g_inflight_state);
+  set_case(hist_json(h, g_inflight_op >= 0 && size_t(g_inflight_op) < MENU.size() ? &MENU[g_inflight_op] : nullptr));
+}
+
 static void viol(const std::string& mon, const std::string& reason, const Hist& h, const OpVal* last, const std::string& detail) {
   Violation v;
   v.cls = PROP + "/" + mon + "/" + reason;
@@ -349,6 +359,7 @@ int main(int argc, char** argv) {
     MENU = m;
   }
   if (!A.replay.empty()) return replay_main(A);
+  g_crash_hook = crash_describe;
 
   int maxdepth = int(A.geti("depth", T ? 64 : 3));
   const int NT = std::max(1, A.threads);
@@ -401,7 +412,7 @@ int main(int argc, char** argv) {
           Obs su = observe(s.u), sa = observe(s.a);
           for (size_t oi = 0; oi < MENU.size(); oi++) {
             const OpVal& ov = MENU[oi];
-            set_case(std::string("{\"kind\":\"hist-inflight\",\"state_href\":\"") + hex(sa.href) + "\",\"op\":\"" + op_name(ov.op) + "\",\"value\":\"" + hex(ov.val) + "\"}");
+            g_inflight_state = s.id; g_inflight_op = int(oi);
             Cand c;
             Obs ou, oa;
             uint32_t sid = s.id;
@@ -458,7 +469,7 @@ int main(int argc, char** argv) {
           for (size_t j = i; j < std::min(nextf.size(), i + 16); j++) {
             const St& s = nextf[j];
             Obs ou = observe(s.u), oa = observe(s.a);
-            set_case(std::string("{\"kind\":\"hist-inflight\",\"state_href\":\"") + hex(oa.href) + "\",\"op\":\"state-monitors\"}");
+            g_inflight_state = s.id; g_inflight_op = -1;
             uint32_t sid = s.id;
             state_monitors(s, ou, oa, [&]() { return history_of(sid); }, nullptr);
             R.outcome(hash64(oa.key()));
